@@ -253,7 +253,10 @@ def main(argv=None):
     cross = {}
     if not os.environ.get('PYVC_NO_CROSSCHECK'):
         jobs = []
-        for c in reg.verify:
+        # contracts under proof, plus ASSUMED contracts that ask to be tested natively (crosscheck='assumed': bounded, listed
+        # as assumptions; a concrete input on which the real code breaks an assumed contract is reported like any witness)
+        assumed_tested = [c for c in reg.contracts.values() if getattr(c, 'crosscheck', True) == 'assumed' and c not in reg.verify]
+        for c in list(reg.verify) + assumed_tested:
             if getattr(c, 'crosscheck', True) is False:
                 continue
             if (c.ghost or c.ghost_init) and not c.native_gen:
